@@ -105,6 +105,13 @@ def gen_plan(prop, seed, index, tier="quick", with_faults=None):
                                  "h": hdrs, "pad": r.choice([0, 0, 10, 80])})
                 ops.append({"op": kind, "topic": tname, "partition": part, "recs": recs,
                             "think": r.choice([0, 0, 0.001, 0.005, 0.03])})
+                if r.random() < 0.06:
+                    # legal but unusual: a batch without records (an empty builder handed to
+                    # send_batch, or a send() refused while its batch was being opened) - the
+                    # accumulator then holds an empty batch for a moment
+                    ops.append({"op": "empty", "how": r.choice(["empty_builder", "bad_timestamp"]),
+                                "topic": tname, "partition": r.randrange(nparts),
+                                "think": r.choice([0, 0.001, 0.01])})
                 if prop == "C02" and r.random() < 0.08:
                     ops.append({"op": "flush"})
             tasks.append({"name": f"{tk}", "ops": ops})
@@ -230,6 +237,19 @@ def execute(plan, hooks=None):
                 await asyncio.sleep(op["s"])
                 continue
             topic = op["topic"]
+            if op["op"] == "empty":
+                try:
+                    if op["how"] == "empty_builder":
+                        await producer.send_batch(producer.create_batch(), topic, partition=op["partition"])
+                    else:
+                        await producer.send(topic, b"never", partition=op["partition"], timestamp_ms="12")
+                        obs["notes"].append(("bad_timestamp_accepted", pid))
+                except Exception as exc:  # noqa: BLE001  (either may be refused: nothing was accepted)
+                    obs["notes"].append(("empty_refused", op["how"], type(exc).__name__))
+                world.probe("empty_batch_" + op["how"])
+                if op.get("think"):
+                    await asyncio.sleep(op["think"])
+                continue
             if op["op"] == "send_batch":
                 try:
                     builder = producer.create_batch()
